@@ -18,7 +18,8 @@ FILES = ["solvor/anneal.py", "solvor/tabu.py", "solvor/lns.py", "solvor/genetic.
          "solvor/particle_swarm.py", "solvor/nelder_mead.py", "solvor/powell.py", "solvor/bfgs.py", "solvor/bayesian.py", "solvor/utils/helpers.py"]
 FUNCTIONS = ["solvor.anneal.anneal", "solvor.tabu.tabu_search", "solvor.lns.lns", "solvor.lns.alns", "solvor.genetic.evolve",
              "solvor.differential_evolution.differential_evolution", "solvor.particle_swarm.particle_swarm", "solvor.nelder_mead.nelder_mead",
-             "solvor.utils.helpers.Evaluator"]
+             "solvor.powell.powell (+_line_search/_bracket_minimum/_golden_section_search)", "solvor.bfgs.bfgs / lbfgs / _backtracking_line_search",
+             "solvor.bayesian.bayesian_opt (inner nelder_mead stubbed)", "solvor.utils.helpers.Evaluator"]
 BOUNDS = {
     "quick": "anneal max_iter<=5 (3 cooling schedules), tabu_search max_iter<=3 with <=3 neighbours per step and cooldown in 0..2, lns max_iter<=4 "
              "(3 acceptance rules), alns max_iter<=3 with 2x2 operators and segment_size 2, evolve population 3 / 2 generations / elite 0..2 / "
@@ -29,7 +30,8 @@ BOUNDS = {
     "thorough": "one more iteration everywhere, tabu with 4 neighbours, evolve population 4",
 }
 OUTSIDE = ("longer runs; DE/PSO/Nelder-Mead positions come from a concrete seeded stream (only decisions and objective values are symbolic); "
-           "powell/bfgs/lbfgs/bayesian_opt are not covered by this check (line-search and surrogate arithmetic not encoded); float rounding")
+           "powell / bfgs / lbfgs: only the clause 'reports the objective of exactly the point returned' (as the property states), 1-2 iterations, concrete "
+           "gradient, path-capped; bayesian_opt: inner acquisition maximiser stubbed, erf/exp of surrogate values uninterpreted; float rounding")
 ASSUMPTIONS = [
     "objective is a deterministic function of the point (memoised symbol per point)",
     "anneal (default cooling) / lns / alns with simulated-annealing acceptance: the start temperature is a symbolic positive Real, cooling rate 0.5",
@@ -37,8 +39,8 @@ ASSUMPTIONS = [
     "exp(x)<1 <=> x<0 (over-approximation; both are replayed from the model in concrete mode)",
     "reproducibility clause: every path witness is additionally run twice natively with the real Random(seed) and compared",
 ]
-STUBS = ["<module>.Random := SymRandom", "<module>.exp := symbolic exp"]
-GOALS = {"quick": ["anneal.uphill_accepted_after_best", "tabu.run", "lns.run", "alns.run", "evolve.run", "de.run", "pso.run", "nm.run", "mirror.checked",
+STUBS = ["<module>.Random := SymRandom", "<module>.exp := symbolic exp", "solvor.bayesian.nelder_mead := arbitrary in-bounds candidate", "solvor.bayesian.erf/exp := uninterpreted on symbolic arguments"]
+GOALS = {"quick": ["anneal.uphill_accepted_after_best", "tabu.run", "lns.run", "alns.run", "evolve.run", "de.run", "pso.run", "nm.run", "powell.run", "bfgs.run", "bayes.run", "mirror.checked",
                    "repro.checked"],
          "thorough": ["anneal.uphill_accepted_after_best", "tabu.run", "lns.run", "alns.run", "evolve.run"]}
 OPTS = {"quick": {"path_wall": 30.0}, "thorough": {"path_wall": 60.0}}
@@ -407,18 +409,95 @@ def h_nm(s, dim, iters, minimize):
     s.observe("objective", res.objective)
 
 
+# ------------------------------------------------------------------------------------------ second group: powell / bfgs / lbfgs / bayesian_opt
+def _fkey(p):
+    return tuple(str(x).replace("-", "m").replace(".", "p").replace("e", "E").replace("+", "") for x in _pkey(p))
+
+
+def h_powell(s, dim, minimize, bounded):
+    """Positions only depend on comparisons of objective values (bracketing + golden section), so they stay concrete while every objective
+    value is symbolic. Clause: the reported objective is the objective of exactly the point returned."""
+    mod = importlib.import_module("solvor.powell")
+    obj = Obj(s, False, key=_fkey)
+    x0 = [0.3, -0.2][:dim]
+    bounds = [(-1.0, 1.0)] * dim if bounded else None
+    res = mod.powell(obj, x0, minimize=minimize, bounds=bounds, max_iter=1, tol=1e-6)
+    s.check(res.objective == obj.value(res.solution), "powell.objective_is_f_of_returned_solution")
+    if bounded:
+        s.check(all(-1.0 - 1e-12 <= v <= 1.0 + 1e-12 for v in res.solution), "powell.solution_inside_bounds", detail=repr(res.solution))
+    s.goal("powell.run")
+    s.observe("solution", [float(v) for v in res.solution])
+    s.observe("objective", res.objective)
+
+
+def h_bfgs(s, variant, minimize, iters):
+    """Gradient = gradient of a fixed concrete quadratic (positions then depend only on the Armijo decisions, which compare SYMBOLIC objective
+    values): the objective is an arbitrary function, unrelated to the gradient - the bookkeeping clause must hold regardless."""
+    mod = importlib.import_module("solvor.bfgs")
+    obj = Obj(s, False, key=_fkey)
+    sgn = 1.0 if minimize else -1.0
+
+    def grad(x):
+        return [sgn * (2.0 * x[0] + 0.5 * x[1] - 1.0), sgn * (0.5 * x[0] + 1.0 * x[1] + 0.25)]
+
+    fn = getattr(mod, variant)
+    kw = {"m": 2} if variant == "lbfgs" else {}
+    res = fn(grad, [0.5, -0.5], minimize=minimize, objective_fn=obj, max_iter=iters, tol=1e-9, **kw)
+    s.check(res.objective == obj.value(res.solution), variant + ".objective_is_f_of_returned_solution")
+    s.goal("bfgs.run")
+    s.observe("solution", [float(v) for v in res.solution])
+    s.observe("objective", res.objective)
+
+
+def h_bayes(s, minimize, acquisition, extra):
+    """The acquisition maximiser (inner nelder_mead) is replaced by a stub returning an arbitrary in-bounds candidate from a concrete stream
+    (over-approximation of the maximiser); erf/exp of symbolic surrogate values are uninterpreted. Objective values symbolic."""
+    mod = importlib.import_module("solvor.bayesian")
+    Result = importlib.import_module("solvor.types").Result
+    from random import Random as _R
+    bounds = [(-1.0, 2.0), (0.0, 1.0)]
+    cand = _R(5)
+
+    def nm_stub(f, x0, **kw):
+        return Result([cand.uniform(lo, hi) for lo, hi in bounds], 0.0, 1, 1)
+
+    def unint(name):
+        def g(x):
+            import math
+            if not isinstance(x, SNum) or not x._subst().co:
+                return getattr(math, name)(x.value() if isinstance(x, SNum) else x)
+            c = _core._ctx()
+            c.fresh_n += 1
+            return s.real("%s!%d" % (name, c.fresh_n), 0 if name == "exp" else -1, 1 if name == "erf" else None)
+        return g
+
+    def run(mn, flip):
+        obj = Obj(s, flip, key=_fkey)
+        s.patch(mod, nelder_mead=nm_stub)
+        s.stub(mod, erf=unint("erf"), exp=unint("exp"))
+        res = mod.bayesian_opt(obj, bounds, minimize=mn, max_iter=2 + extra, n_initial=2, acquisition=acquisition, acq_restarts=1, seed=4)
+        return res, obj
+
+    res, obj = run(minimize, False)
+    common_obligations(s, "bayes", res, obj, minimize)
+    s.check(all(lo - 1e-12 <= x <= hi + 1e-12 for x, (lo, hi) in zip(res.solution, bounds)), "bayes.solution_inside_bounds", detail=repr(res.solution))
+    s.goal("bayes.run")
+    s.observe("solution", [float(x) for x in res.solution])
+    s.observe("objective", res.objective)
+
+
 def items(tier, rng):
     out = []
     q = tier == "quick"
     x = 0 if q else 1
     cap = 500 if q else 6000
 
-    def add(name, harness, params, exhaustive_split=None):
+    def add(name, harness, params, exhaustive_split=None, mp=None):
         it = {"name": name, "harness": harness, "params": params}
         if exhaustive_split:
             it["split"] = exhaustive_split
         else:
-            it["max_paths"] = cap
+            it["max_paths"] = mp or cap
         out.append(it)
 
     for mn in (True, False):
@@ -443,4 +522,11 @@ def items(tier, rng):
         add("pso", "h_pso", {"iters": 1 + x, "minimize": mn})
         for dim in (1, 2):
             add("nm", "h_nm", {"dim": dim, "iters": 2 + x, "minimize": mn})
+        for dim in (1, 2):
+            for bounded in (False, True):
+                add("powell", "h_powell", {"dim": dim, "minimize": mn, "bounded": bounded}, mp=60 if q else 1500)
+        for variant in ("bfgs", "lbfgs"):
+            add(variant, "h_bfgs", {"variant": variant, "minimize": mn, "iters": 2 + x}, mp=120 if q else 3000)
+        for acq in ("ei", "ucb"):
+            add("bayes", "h_bayes", {"minimize": mn, "acquisition": acq, "extra": 2 + x})
     return out
